@@ -37,6 +37,12 @@ pub fn data_to_string(d: &Data) -> String {
         Data::String(s) => format!("'{}'", s),
         Data::Source(s) => format!("src:{}", s.source),
         Data::None() => "<none>".to_string(),
+        Data::Map(m) => {
+            // canonical: sorted by key (the textual form of rFSM follows the hash order)
+            let mut kv: Vec<(String, String)> = m.iter().map(|(k, v)| (k.clone(), data_to_string(&v.lock().unwrap()))).collect();
+            kv.sort();
+            format!("{{{}}}", kv.iter().map(|(k, v)| format!("{}={}", k, v)).collect::<Vec<_>>().join(";"))
+        }
         other => format!("{}", other),
     }
 }
